@@ -41,6 +41,9 @@ EXTRA_SEEDS = [
     'import m2\npub fn is_even(n) { case n { 0 -> True _ -> is_odd(n - 1) } }\npub fn is_odd(n) { case n { 0 -> False _ -> is_even(n - 1) } }\nfn top() { is_even(m2.c()) }\n',
     'pub fn ping(n) { case n { 0 -> 0 _ -> pong(n - 1) } }\nfn pong(n) { ping(n) + 1 }\n',
     'fn p1(x) { p2(x + 1) }\nfn p2(y) { p3(y) <> "s" }\nfn p3(z) { case z { 0 -> "" _ -> p1(z) } }\nfn solo() { p2(1) }\n',
+    # a type whose rendering is large (it doubles with every binding: the last one has 2^11 components)
+    'fn big() {\n  let a = #(1, "s")\n  let b = #(a, a)\n  let c = #(b, b)\n  let d = #(c, c)\n  let e = #(d, d)\n  let f = #(e, e)\n  let g = #(f, f)\n'
+    '  let h = #(g, g)\n  let i = #(h, h)\n  let j = #(i, i)\n  j\n}\nfn use_big() { big() }\n',
     # invisible characters where editors and tools put them: a byte order mark at the very start of the file (files saved as
     # "UTF-8 with BOM"), a no-break space, a line separator
     '\ufeffimport m2\npub fn main() { m2.c() }\nfn g(x) { main() + g(x) }\npub type T { T(f: Int) }\nfn h(t: T) { t.f }\n',
